@@ -14,6 +14,9 @@ func vVariant() (k, maxPayload, mode, B int) {
 	}
 	switch vChoose("variant", 3) {
 	case 0:
+		if vTier() > 0 {
+			return k, 1, 0, 16 // 4 frames with payloads 0..1 (3 frames with 0..2 in the quick tier)
+		}
 		return k, 2, 0, 16
 	case 1:
 		return k - 1, 2, 1 + vChoose("mode", 1+vTier()), 16
